@@ -225,6 +225,38 @@ impl World {
         self.tables.iter().map(|t| (vec![t.name.to_string()], Arc::new(t.relation(None)))).collect()
     }
 
+    /// The same tables registered the way `Database::relations()` does it: every table under its Qrlew NAME and under
+    /// its SQL PATH, with names that differ from the paths (users -> people, orders -> purchases, items -> lines, m -> mm).
+    pub fn relations_named(&self) -> Hierarchy<Arc<Relation>> {
+        let mut v: Vec<(Vec<String>, Arc<Relation>)> = vec![];
+        for t in &self.tables {
+            let name = World::qrlew_name(t.name);
+            let rel = match t.relation(None) {
+                Relation::Table(tab) => {
+                    use qrlew::relation::Variant as _;
+                    Relation::Table(Table::new(name.to_string(), t.name.into(), tab.schema().clone(), tab.size().clone()))
+                }
+                r => r,
+            };
+            let rel = Arc::new(rel);
+            v.push((vec![name.to_string()], rel.clone()));
+            if name != t.name {
+                v.push((vec![t.name.to_string()], rel));
+            }
+        }
+        v.into_iter().collect()
+    }
+
+    pub fn qrlew_name(table: &str) -> &str {
+        match table {
+            "users" => "people",
+            "orders" => "purchases",
+            "items" => "lines",
+            "m" => "mm",
+            t => t,
+        }
+    }
+
     /// relations declared with exactly the sizes of the instance
     pub fn relations_exact(&self, db: &Db) -> Hierarchy<Arc<Relation>> {
         self.tables
